@@ -101,27 +101,27 @@ def install(reg):
     reg.add(FuncContract(D + ".handler_thread", params={"thread_no": Int}, setup=alias_locks, raises=[],
         rely=[("own-number-registered-until-this-thread-removes-it", "thread_no in self.threads")], monitor_preserves=[TARGET],
         requires=[("nothing-taken-yet", "my_taken() == empty_seq() and my_serviced() == empty_seq() and my_cancelled() == empty_seq()")],
-        ensures=[("every-taken-task-serviced-exactly-once", "my_serviced() == my_taken()"), ("never-cancels", "my_cancelled() == empty_seq()")],
-        loops={0: LoopSpec(invariants=[("serviced-equals-taken", "my_serviced() == my_taken()"), ("never-cancels", "my_cancelled() == empty_seq()")]),
+        ensures=[("every-taken-task-serviced-exactly-once", "my_serviced() == my_taken()"), ("C14-never-cancels", "my_cancelled() == empty_seq()")],
+        loops={0: LoopSpec(invariants=[("C14-serviced-equals-taken", "my_serviced() == my_taken()"), ("C14-never-cancels", "my_cancelled() == empty_seq()")]),
                1: LoopSpec(invariants=[("true", "True")])}))
     reg.add(FuncContract(D + ".set_thread_count", params={"count": Int}, setup=alias_locks, raises=[],
         requires=[("count-nonneg", "count >= 0")],
         ensures=[("target-is-count", "len(self.threads) - self.stop_count == count")],
         modifies=["self.threads", "self.stop_count", "self.active_count"],
-        loops={0: LoopSpec(invariants=[("running-is-target", "running == len(self.threads) - self.stop_count"),
+        loops={0: LoopSpec(invariants=[("C14-running-is-target", "running == len(self.threads) - self.stop_count"),
                                        ("running-le-count-or-initial", "self.stop_count >= 0 and self.stop_count <= len(self.threads)"),
                                        ("threads-alias", "threads is self.threads"),
                                        ("submitted", "self.g_submitted == self.g_taken + seq(self.queue)")]),
                1: LoopSpec(invariants=[("true", "True")])}))
     reg.add(FuncContract(D + ".shutdown", params={"cancel_pending": Bool, "timeout": Int}, setup=alias_locks, raises=[], returns=Bool,
         requires=[("nothing-taken-yet", "my_taken() == empty_seq() and my_serviced() == empty_seq() and my_cancelled() == empty_seq()")],
-        ensures=[("every-taken-task-cancelled-exactly-once", "my_cancelled() == my_taken()"), ("never-services", "my_serviced() == empty_seq()"),
+        ensures=[("every-taken-task-cancelled-exactly-once", "my_cancelled() == my_taken()"), ("C14-never-services", "my_serviced() == empty_seq()"),
                  ("no-cancel-unless-asked", "implies(not cancel_pending, my_taken() == empty_seq())")],
         loops={0: LoopSpec(invariants=[("true", "True")]),
-               1: LoopSpec(invariants=[("cancelled-equals-taken", "my_cancelled() == my_taken()"), ("never-services", "my_serviced() == empty_seq()"),
+               1: LoopSpec(invariants=[("C14-cancelled-equals-taken", "my_cancelled() == my_taken()"), ("C14-never-services", "my_serviced() == empty_seq()"),
                                        ("queue-alias", "queue is self.queue"),
                                        ("submitted", "self.g_submitted == self.g_taken + seq(self.queue)"),
-                                       ("stop", "self.stop_count >= 0 and self.stop_count <= len(self.threads)")])}))
+                                       ("C14-stop", "self.stop_count >= 0 and self.stop_count <= len(self.threads)")])}))
 
 
 def attach(eng, reg, qual):
